@@ -288,10 +288,10 @@ theorem mem_readyList {eps : List EP} {us : List Name} {e : EP} :
     exact ⟨n, hn, by simp [hg, hr]⟩
 
 /-- the three possible answers of `Pop` -/
-theorem pop_cases (eps : List EP) (lb : List (Key × Nat)) (us : List Name) :
-    ((pop eps lb us).1 = .noReady ∧ readyList eps us = []) ∨
-    (∃ e, e ∈ readyList eps us ∧ (pop eps lb us).1 = .picked e.name e.gen) := by
-  unfold pop
+theorem popScoped_cases (tag : Key) (eps : List EP) (lb : List (Key × Nat)) (us : List Name) :
+    ((popScoped tag eps lb us).1 = .noReady ∧ readyList eps us = []) ∨
+    (∃ e, e ∈ readyList eps us ∧ (popScoped tag eps lb us).1 = .picked e.name e.gen) := by
+  unfold popScoped
   by_cases hu : us.isEmpty = true
   · left
     have : us = [] := by simpa using hu
@@ -306,18 +306,26 @@ theorem pop_cases (eps : List EP) (lb : List (Key × Nat)) (us : List Name) :
       | nil => exact ⟨e1, by simp, by simp⟩
       | cons e2 t2 =>
         simp only [indexResult]
-        have hlt : toU64 (lbGet lb (List.map EP.id (e1 :: e2 :: t2)) + 1) % (e1 :: e2 :: t2).length < (e1 :: e2 :: t2).length :=
+        have hlt : toU64 (lbGet lb (tag ++ List.map EP.id (e1 :: e2 :: t2)) + 1) % (e1 :: e2 :: t2).length < (e1 :: e2 :: t2).length :=
           Nat.mod_lt _ (by simp)
         rw [List.getElem?_eq_getElem hlt]
         exact ⟨_, List.getElem_mem hlt, rfl⟩
 
-theorem pop_never_panics (eps : List EP) (lb : List (Key × Nat)) (us : List Name) : (pop eps lb us).1 ≠ .panic := by
-  rcases pop_cases eps lb us with ⟨h, _⟩ | ⟨e, _, h⟩ <;> simp [h]
+theorem pop_cases (eps : List EP) (lb : List (Key × Nat)) (us : List Name) :
+    ((pop eps lb us).1 = .noReady ∧ readyList eps us = []) ∨
+    (∃ e, e ∈ readyList eps us ∧ (pop eps lb us).1 = .picked e.name e.gen) := popScoped_cases [] eps lb us
 
-theorem pop_sound {eps : List EP} {lb : List (Key × Nat)} {us : List Name} {n : Name} {g : Nat}
-    (h : (pop eps lb us).1 = .picked n g) :
+theorem popScoped_never_panics (tag : Key) (eps : List EP) (lb : List (Key × Nat)) (us : List Name) :
+    (popScoped tag eps lb us).1 ≠ .panic := by
+  rcases popScoped_cases tag eps lb us with ⟨h, _⟩ | ⟨e, _, h⟩ <;> simp [h]
+
+theorem pop_never_panics (eps : List EP) (lb : List (Key × Nat)) (us : List Name) : (pop eps lb us).1 ≠ .panic :=
+  popScoped_never_panics [] eps lb us
+
+theorem popScoped_sound {tag : Key} {eps : List EP} {lb : List (Key × Nat)} {us : List Name} {n : Name} {g : Nat}
+    (h : (popScoped tag eps lb us).1 = .picked n g) :
     ∃ e, load eps n = some e ∧ e.gen = g ∧ n ∈ us ∧ e.isReady = true := by
-  rcases pop_cases eps lb us with ⟨h', _⟩ | ⟨e, he, h'⟩
+  rcases popScoped_cases tag eps lb us with ⟨h', _⟩ | ⟨e, he, h'⟩
   · rw [h'] at h; cases h
   · rw [h'] at h
     injection h with h1 h2
@@ -327,10 +335,14 @@ theorem pop_sound {eps : List EP} {lb : List (Key × Nat)} {us : List Name} {n :
     subst this
     exact ⟨e, hg, rfl, hm, hr⟩
 
-theorem pop_noReady {eps : List EP} {lb : List (Key × Nat)} {us : List Name}
-    (h : (pop eps lb us).1 = .noReady) :
+theorem pop_sound {eps : List EP} {lb : List (Key × Nat)} {us : List Name} {n : Name} {g : Nat}
+    (h : (pop eps lb us).1 = .picked n g) :
+    ∃ e, load eps n = some e ∧ e.gen = g ∧ n ∈ us ∧ e.isReady = true := popScoped_sound (tag := []) h
+
+theorem popScoped_noReady {tag : Key} {eps : List EP} {lb : List (Key × Nat)} {us : List Name}
+    (h : (popScoped tag eps lb us).1 = .noReady) :
     ∀ n, n ∈ us → ∀ e, load eps n = some e → e.isReady = false := by
-  rcases pop_cases eps lb us with ⟨_, h'⟩ | ⟨e, _, h'⟩
+  rcases popScoped_cases tag eps lb us with ⟨_, h'⟩ | ⟨e, _, h'⟩
   · intro n hn e hg
     cases hr : e.isReady with
     | false => rfl
@@ -339,6 +351,10 @@ theorem pop_noReady {eps : List EP} {lb : List (Key × Nat)} {us : List Name}
       rw [h'] at this; cases this
   · rw [h'] at h; cases h
 
+
+theorem pop_noReady {eps : List EP} {lb : List (Key × Nat)} {us : List Name}
+    (h : (pop eps lb us).1 = .noReady) :
+    ∀ n, n ∈ us → ∀ e, load eps n = some e → e.isReady = false := popScoped_noReady (tag := []) h
 
 /-! ## association lists of the abstract state -/
 
@@ -394,6 +410,12 @@ theorem sim_init : Sim init Abs.init := by
   refine ⟨rfl, rfl, rfl, by simp [init], ?_, ?_, ?_⟩
   · intro n; simp [init, load_nil, Abs.init, Abs.inServers, serverNames]
   · intro n e h; simp [init, load_nil] at h
+  · intro n _; simp [Abs.init]
+
+theorem sim_initScoped (ps : Bool) : Sim (initScoped ps) Abs.init := by
+  refine ⟨rfl, rfl, rfl, by simp [initScoped, init], ?_, ?_, ?_⟩
+  · intro n; simp [initScoped, init, load_nil, Abs.init, Abs.inServers, serverNames]
+  · intro n e h; simp [initScoped, init, load_nil] at h
   · intro n _; simp [Abs.init]
 
 theorem sim_sync {s : State} {a : Abs} (h : Sim s a) (servers : List Server) (pols : List (List Name)) :
@@ -642,16 +664,16 @@ theorem sim_step {s : State} {a : Abs} (h : Sim s a) (op : Op) :
       | none => exact ⟨by simp, by simpa [absStep] using h⟩
       | some us =>
         simp only
-        have hsim : Sim { s with lb := (pop s.eps s.lb us).2 } a := { h with }
+        have hsim : Sim { s with lb := (popScoped (pickerTag s j) s.eps s.lb us).2 } a := { h with }
         refine ⟨?_, by simpa [absStep] using hsim⟩
-        cases hr : (pop s.eps s.lb us).1 with
+        cases hr : (popScoped (pickerTag s j) s.eps s.lb us).1 with
         | picked n g =>
-          obtain ⟨e, hl, hg, hmem, hready⟩ := pop_sound hr
+          obtain ⟨e, hl, hg, hmem, hready⟩ := popScoped_sound hr
           have helig := (sim_eligible_iff h n).2 ⟨e, hl, hready⟩
           obtain ⟨_, _, k3, _⟩ := h.ep n e hl
           simp [hmem, helig, ← hg, k3]
         | noReady =>
-          have hno := pop_noReady hr
+          have hno := popScoped_noReady hr
           simp only [List.all_eq_true, Bool.not_eq_true']
           intro n hn
           cases hel : a.eligible n with
@@ -659,7 +681,7 @@ theorem sim_step {s : State} {a : Abs} (h : Sim s a) (op : Op) :
           | true =>
             obtain ⟨e, hl, hready⟩ := (sim_eligible_iff h n).1 hel
             rw [hno n hn e hl] at hready; cases hready
-        | panic => exact absurd hr (pop_never_panics _ _ _)
+        | panic => exact absurd hr (popScoped_never_panics _ _ _ _)
 
 theorem judge_run {s : State} {a : Abs} (h : Sim s a) (ops : List Op) :
     judgeTrace a (modelTrace s ops) = true := by
@@ -804,19 +826,19 @@ theorem potential_set (K : List Key) (hK : K.Nodup) (k : Nat) (e : Name × Nat) 
 theorem pop_multi (eps : List EP) (lb : List (Key × Nat)) (us : List Name) (h : 2 ≤ (readyList eps us).length) :
     pop eps lb us = (indexResult (readyList eps us) (toU64 (lbGet lb ((readyList eps us).map EP.id) + 1)),
                      lbSet lb ((readyList eps us).map EP.id) (toU64 (lbGet lb ((readyList eps us).map EP.id) + 1))) := by
-  unfold pop
+  unfold pop popScoped
   have hu : us.isEmpty = false := by
     cases us with
     | nil => simp [readyList] at h
     | cons _ _ => rfl
-  simp only [hu, Bool.false_eq_true, if_false]
+  simp only [hu, Bool.false_eq_true, if_false, List.nil_append]
   generalize readyList eps us = ready at h
   match ready, h with
   | e1 :: e2 :: t, _ => rfl
 
 theorem pop_single (eps : List EP) (lb : List (Key × Nat)) (us : List Name) (e : EP) (h : readyList eps us = [e]) :
     pop eps lb us = (.picked e.name e.gen, lb) := by
-  unfold pop
+  unfold pop popScoped
   have hu : us.isEmpty = false := by
     cases us with
     | nil => simp [readyList] at h
@@ -825,7 +847,7 @@ theorem pop_single (eps : List EP) (lb : List (Key × Nat)) (us : List Name) (e 
 
 theorem pop_none (eps : List EP) (lb : List (Key × Nat)) (us : List Name) (h : readyList eps us = []) :
     pop eps lb us = (.noReady, lb) := by
-  unfold pop
+  unfold pop popScoped
   by_cases hu : us.isEmpty = true
   · simp [hu]
   · simp [hu, h]
@@ -1293,5 +1315,30 @@ theorem probe_same_health_keeps_keys (s : State) (n : Name) (hv : Bool)
       rw [hl] at hl'; injection hl' with hl'; subst hl'
       simp [EP.isReady, (fire_facts e hv).2.2.1, (fire_facts e hv).2.2.2.1, hsame e hl]
     · simp [hc]
+
+
+/-! ## C14: several policies, each with its own cursors -/
+
+/-- with its own cursors a policy's picks are the plain `popMany` of its own upstream lists, whatever the other policies do -/
+theorem runPolicies_own (eps : List EP) (p : Nat) (lbs : Nat → List (Key × Nat)) (evs : List (Nat × List Name)) :
+    ((runPolicies true eps lbs evs).filter (fun x => x.1 == p)).map (·.2)
+      = (popMany eps (lbs p) ((evs.filter (fun x => x.1 == p)).map (·.2))).1 := by
+  induction evs generalizing lbs with
+  | nil => simp [runPolicies, popMany]
+  | cons ev rest ih =>
+    obtain ⟨q, us⟩ := ev
+    simp only [runPolicies, if_true]
+    by_cases hq : q = p
+    · subst hq
+      simp only [List.filter_cons, beq_self_eq_true, if_true, List.map_cons, popMany]
+      rw [ih]
+      simp
+    · have hb : (q == p) = false := by simpa using hq
+      simp only [List.filter_cons, hb, Bool.false_eq_true, if_false]
+      rw [ih]
+      have : (if p = q then (pop eps (lbs q) us).2 else lbs p) = lbs p := by
+        have : ¬ p = q := fun h => hq h.symm
+        simp [this]
+      rw [this]
 
 end KG.Lemmas.Endpoints
